@@ -477,3 +477,57 @@ func pickLP(rng *chain.Rng, e *env.Env, st env.ClpState, tid int64, u chain.Acco
 	}
 	return u, uid
 }
+
+// Recorder helpers for scripted (corpus) histories -------------------------------------------
+
+func recTx(h *History, nextID *int, stepNo int, u chain.Account, m Msg, sm sdk.Msg) chain.TxResult {
+	e := h.Env
+	pre := e.Snapshot()
+	res := e.Tx(u, sm)
+	post := e.Snapshot()
+	*nextID++
+	h.Steps = append(h.Steps, Step{ID: *nextID, Kind: 1, Msg: m, Fee: chain.E(18), OK: res.Code == 0, Pre: pre, Post: post, Log: trunc(res.Log, 160),
+		HistID: h.ID, StepNo: stepNo, EnvRef: e, Signer: u, ChainMsg: sm})
+	return res
+}
+
+func recBlock(h *History, nextID *int, stepNo int) {
+	e := h.Env
+	pre := e.Snapshot()
+	panicked := e.EndBlock()
+	post := e.Snapshot()
+	*nextID++
+	h.Steps = append(h.Steps, Step{ID: *nextID, Kind: 2, OK: !panicked, Pre: pre, Post: post, HistID: h.ID, StepNo: stepNo, EnvRef: e})
+	e.Commit()
+	pre = e.Snapshot()
+	panicked = e.BeginBlock()
+	post = e.Snapshot()
+	pre.Height = post.Height
+	*nextID++
+	h.Steps = append(h.Steps, Step{ID: *nextID, Kind: 3, OK: !panicked, Pre: pre, Post: post, HistID: h.ID, StepNo: stepNo, EnvRef: e})
+}
+
+// ScriptF14: corpus history reproducing finding F-14 (add into a pool whose native side LPPD emptied).
+func ScriptF14(nextID *int) History {
+	e := env.New(env.Opts{NUsers: 3, Tokens: []string{"ceth"}})
+	h := History{ID: 9014, Env: e, Desc: map[string]interface{}{"corpus": "F-14", "tokens": []string{"ceth"}, "lppd_rate": "1.0"}}
+	e.BeginBlock()
+	mustOK(e.UpdateRewardsParams(0, 0, 0, "", false), "rewards params")
+	tid := e.DenomID["ceth"]
+	asset := clptypes.NewAsset("ceth")
+	u0, u1, u2 := e.Users[0], e.Users[1], e.Users[2]
+	id := func(a chain.Account) int64 { return e.AcctID[a.Addr.String()] }
+	n, x := new(big.Int).Mul(big.NewInt(1000), chain.E(18)), new(big.Int).Mul(big.NewInt(2000), chain.E(18))
+	m1 := clptypes.NewMsgCreatePool(u0.Addr, asset, env.U(n), env.U(x))
+	recTx(&h, nextID, 0, u0, Msg{Tag: 1, Signer: id(u0), A: tid, X: n, Y: x}, &m1)
+	m2 := clptypes.NewMsgAddLiquidity(u1.Addr, asset, env.U(n), env.U(x))
+	recTx(&h, nextID, 1, u1, Msg{Tag: 2, Signer: id(u1), A: tid, X: n, Y: x}, &m2)
+	st := uint64(e.Height)
+	mustOK(e.AddLppdPeriods([]*clptypes.ProviderDistributionPeriod{{DistributionPeriodBlockRate: sdk.OneDec(), DistributionPeriodStartBlock: st,
+		DistributionPeriodEndBlock: st + 1, DistributionPeriodMod: 1}}), "lppd")
+	recBlock(&h, nextID, 2)
+	a, b := big.NewInt(5000), big.NewInt(7000)
+	m3 := clptypes.NewMsgAddLiquidity(u2.Addr, asset, env.U(a), env.U(b))
+	recTx(&h, nextID, 3, u2, Msg{Tag: 2, Signer: id(u2), A: tid, X: a, Y: b}, &m3)
+	return h
+}
